@@ -1,7 +1,7 @@
-\* hex: 4 A a f SP NUL LF > G <     name: A # 4 1 f G SP / ( .      num: + - . 0 7 9 e
+\* hex: 4 A a f SP NUL LF > G       name: A # 4 1 f G SP / ( .      num: + - . 0 7 9 e
 CONSTANTS
   Parts = {"hex", "name", "num"}
-  HexBytes = {52, 65, 97, 102, 32, 0, 10, 62, 71, 60}
+  HexBytes = {52, 65, 97, 102, 32, 0, 10, 62, 71}
   NameBytes = {65, 35, 52, 49, 102, 71, 32, 47, 40, 46}
   NumBytes = {43, 45, 46, 48, 55, 57, 101}
   MaxLen = 4
